@@ -5,6 +5,7 @@ import (
 
 	"github.com/lmorg/murex/lang/stdio"
 	"github.com/lmorg/murex/utils"
+	"github.com/lmorg/murex/utils/verifhook"
 )
 
 // Write is the standard Writer interface Write() method.
@@ -23,6 +24,7 @@ func (stdin *Stdin) Write(p []byte) (int, error) {
 		default:
 		}
 
+		verifhook.Yield(verifhook.SiteStreamWrite)
 		//stdin.mutex.RLock()
 		stdin.mutex.Lock()
 		buffSize := len(stdin.buffer)
@@ -35,6 +37,7 @@ func (stdin *Stdin) Write(p []byte) (int, error) {
 		}
 	}
 
+	verifhook.Yield(verifhook.SiteStreamWriteAppend)
 	stdin.mutex.Lock()
 	stdin.buffer = appendBytes(stdin.buffer, p...)
 	stdin.bWritten += uint64(len(p))
